@@ -1,5 +1,6 @@
 import DoltVerif.Gen.ManifestSteps
 import DoltVerif.Model.ManOrder
+import DoltVerif.Model.ManFs
 /-! Tie (C05): the step orders of `updateWithChecker` and of the grace prune, and the manifest text layout, as
 regenerated from the Go source. -/
 namespace DoltVerif.Tie.ManifestSteps
@@ -50,8 +51,42 @@ theorem text_layout :
       ["StorageVersion", "contents.nbfVers", "contents.lock.String()", "contents.root.String()", "contents.gcGen.String()"]
     ∧ Gen.ManifestSteps.manifestSep = ":" ∧ Gen.ManifestSteps.prefixLen = 5
     ∧ Gen.ManifestSteps.StorageVersion = "5" ∧ Gen.ManifestSteps.storageVersion4 = "4"
-    ∧ Gen.ManifestSteps.parseV5Sources =
-        ["parseSpecs(slices[prefixLen-1:])", "hash.MaybeParse(slices[1])", "hash.MaybeParse(slices[3])", "hash.Parse(slices[2])"]
+    ∧ Gen.ManifestSteps.parseV5Slices.lookup "specs" = some "slices[prefixLen-1:]"
+    ∧ (Gen.ManifestSteps.parseV5Slices.lookup "lock" = some "slices[1]")
+    ∧ (Gen.ManifestSteps.parseV5Slices.lookup "root" = some "slices[2]")
+    ∧ (Gen.ManifestSteps.parseV5Slices.lookup "gcGen" = some "slices[3]")
     ∧ Gen.ManifestSteps.parseV5Fields.lookup "nbfVers" = some "slices[0]" := by decide
+
+/-! the actor programs of `Model/ManFs.lean` are these step lists -/
+
+/-- the writer actor's program counter values, in program order, are (after) exactly these source events, in
+source order: `tryFileLock` in `fileManifest.Update`, then inside `updateWithChecker` NewFile, writeManifest,
+Sync, parseManifest, the lock compare, validate, Rename, SyncDirectoryHandle -/
+theorem writer_program_is_source_order :
+    project (Gen.ManifestSteps.fileManifestUpdate.takeWhile (· != "call:updateWithChecker") ++ Gen.ManifestSteps.updateWithChecker)
+      (ManFs.writerProgram.map ManFs.WPc.label) = ManFs.writerProgram.map ManFs.WPc.label := by decide
+
+/-- every failure return of `updateWithChecker` before the rename runs with the temp file's removal and the
+LOCK's release deferred (the model's `leave`) -/
+theorem writer_failure_paths :
+    before Gen.ManifestSteps.updateWithChecker "defer:file.Remove" "call:writeHook" = true
+    ∧ before Gen.ManifestSteps.fileManifestUpdate "defer:fm.lock.Unlock" "call:updateWithChecker" = true
+    ∧ Gen.ManifestSteps.fileManifestUpdate.contains "call:fm.lock.Unlock" = false := by decide
+
+/-- the grace pruner's program: snapshot (`os.ReadDir`), `lock(ctx)`, `unlinkCandidates` -/
+theorem pruner_program_is_source_order :
+    project (Gen.ManifestSteps.pruneDirAsOf.takeWhile (· != "call:unlinkUnderManifestLock") ++ Gen.ManifestSteps.unlinkUnderManifestLock)
+      (ManFs.prunerProgram.map ManFs.PPc.label) = ManFs.prunerProgram.map ManFs.PPc.label := by decide
+
+/-- `pUnlink`'s guard: the keep test precedes the unlink, inside the candidate loop -/
+theorem pruner_unlink_guard :
+    before Gen.ManifestSteps.unlinkCandidates "if:!c.isTemp && keep.Has(c.addr)" "call:file.Remove" = true
+    ∧ Gen.ManifestSteps.unlinkCandidates.head? = some "for:candidates" := by decide
+
+/-- the unlocked unlinkers (the model's cleaner actor) really take no manifest lock -/
+theorem legacy_prune_takes_no_manifest_lock :
+    Gen.ManifestSteps.ftp_PruneTableFiles.contains "call:file.Remove" = true
+    ∧ Gen.ManifestSteps.ftp_PruneTableFiles.any (fun e => e == "call:tryFileLock" || e == "call:lock" || e == "call:locker.LockManifest") = false := by
+  decide
 
 end DoltVerif.Tie.ManifestSteps
